@@ -91,6 +91,8 @@ def build(case):
                     del cookie[op[1]]
             elif op[0] == 'clear':
                 cookie.clear()
+            elif op[0] == 'expire':
+                cookie.set_expires(int(state['now'] + op[1]))       # the public JSONCookie API (examples/basic.py logout idiom)
         return Response(json.dumps(given, sort_keys=True), mimetype='application/json')
     exec('def ep(%s):\n    return _body(%s)\n' % (arg, arg), {'_body': body}, ns)
     mw = SignedCookieMiddleware(arg_name=arg, cookie_name=case['cookie_name'], secret_key=SERVER_KEY, expiry=expiry)
@@ -171,6 +173,7 @@ def impl(case):
             clock['now'] += step['advance']
             sent = tamper(step['tamper'], cur, old, rng)
             state['ops'] = step['ops']
+            state['now'] = clock['now']
             env = wsgi.environ('/')
             if sent is not None:
                 env['HTTP_COOKIE'] = '%s=%s' % (cname, sent.encode('utf8').decode('latin-1'))
@@ -221,6 +224,46 @@ def oracle(case, obs):
     return None
 
 
+def history_oracle(case, obs):
+    """the history clause, restated independently: an honest client (one that returns the cookie it was last sent,
+    untouched) is presented exactly what the application stored over its previous responses, until that expires"""
+    numeric = None if isinstance(case['expiry'], str) else case['expiry'][1]
+    jar, jar_exp = {}, None
+    for n, (step, o) in enumerate(zip(case['steps'], obs)):
+        if o['given'] is None:
+            return None                   # an error response: the per-request oracle reports it
+        if step['tamper'] == 'none' or n == 0:
+            want = {} if (jar_exp is not None and o['now'] > jar_exp) else jar
+            if o['given'] != want:
+                return ('request %d (clock %s) by an honest client: the endpoint was given %r; over its previous responses the '
+                        'application stored %r%s' % (n, o['now'], o['given'], jar,
+                                                     ' (valid until %s)' % jar_exp if jar_exp is not None else ''), 'history')
+        d = dict(o['given'])
+        modified = False
+        for op in step['ops']:
+            if op[0] == 'set':
+                d[op[1]] = op[2]
+                modified = True
+            elif op[0] == 'del':
+                if op[1] in d:
+                    del d[op[1]]
+                    modified = True
+            elif op[0] == 'expire':
+                d['_expires'] = int(o['now'] + op[1])
+                modified = True
+            else:
+                d.clear()
+                modified = True
+        if '_expires' in d:
+            if modified:
+                jar, jar_exp = dict((k, v) for k, v in d.items() if k != '_expires'), d['_expires']
+        elif numeric is not None:
+            jar, jar_exp = d, o['now'] + numeric
+        elif modified:
+            jar, jar_exp = d, None
+    return None
+
+
 def gen_case(rng, tier):
     ex = rng.choice(['session', 'never', ['numeric', rng.choice([5, 50, 100])], ['numeric', 100]])
     steps = []
@@ -232,8 +275,10 @@ def gen_case(rng, tier):
             if x < 0.6:
                 k = rng.choice(KEYS)
                 ops.append(['set', k, rng.choice(VALUES)])
-            elif x < 0.85:
+            elif x < 0.8:
                 ops.append(['del', rng.choice(KEYS)])
+            elif x < 0.9:
+                ops.append(['expire', rng.choice([-500, -1, 30, 60, 1000])])
             else:
                 ops.append(['clear'])
         adv = rng.choice([0, 1, 1, 10, 49, 50, 51, 99, 100, 101, 500])
@@ -252,7 +297,7 @@ def run(rep, b, tier, seed, only_cases=None):
     corpus = [c['case'] if 'case' in c else c for c in core.load_corpus('C16')]
     cases = list(only_cases) if only_cases is not None else corpus + [gen_case(rng, tier) for _ in range(300 if tier == 'quick' else 3000)]
     rep.rule = ('cookielab: histories of %s requests by one client: per request 0-2 operations {set key to a JSON value from %d '
-                '(nested, unicode, numbers, empty), delete, clear}, a clock advance around the expiry (patched clocks in '
+                '(nested, unicode, numbers, empty), delete, clear, set_expires(now + {-500,-1,30,60,1000})}, a clock advance around the expiry (patched clocks in '
                 'secure_cookie and the middleware), and a tampering step from %d kinds applied to the cookie the client sends '
                 'back; expiry session / never / numeric; custom cookie and argument names; raw Cookie headers. Every request: '
                 'status, the cookie contents the endpoint saw, the Set-Cookie value; compared with Model/Cookie.mw_request and '
@@ -275,6 +320,8 @@ def run(rep, b, tier, seed, only_cases=None):
                     ops.append(['set', op[1].encode('utf8'), json.dumps(op[2], sort_keys=True).encode('utf8')])
                 elif op[0] == 'del':
                     ops.append(['del', op[1].encode('utf8')])
+                elif op[0] == 'expire':
+                    ops.append(['set', b'_expires', str(int(r['now'] + op[1])).encode()])
                 else:
                     ops.append('clear')
             ex = c['expiry'] if isinstance(c['expiry'], str) else ['numeric', c['expiry'][1]]
@@ -296,6 +343,8 @@ def run(rep, b, tier, seed, only_cases=None):
                     ops.append(['set', op[1].encode('utf8'), json.dumps(op[2], sort_keys=True).encode('utf8')])
                 elif op[0] == 'del':
                     ops.append(['del', op[1].encode('utf8')])
+                elif op[0] == 'expire':
+                    ops.append(['set', b'_expires', str(int(r['now'] + op[1])).encode()])
                 else:
                     ops.append('clear')
             hist.append(['req', int(r['now']), ops])
@@ -359,7 +408,7 @@ def run(rep, b, tier, seed, only_cases=None):
     for c, o in zip(cases, obs):
         if isinstance(o, dict) and '_harness_exception' in o:
             continue
-        v = oracle(c, o)
+        v = oracle(c, o) or history_oracle(c, o)
         if v:
             rep.violation(v[0], {'case': c, 'signature': v[1], 'lab': 'cookielab'})
         for st in c['steps']:
